@@ -247,6 +247,10 @@ class Gen:
         callee, pty, rty = spec[0], spec[1], spec[2]
         mask = rsx.code_mask(text)
         hits = [m for m in re.finditer(r'\b' + re.escape(callee) + r'\s*\(\s*\|\s*(\w+)\s*\|', text) if mask[m.start()]]
+        if len(hits) == 0 and not any(mask[m.start()] for m in re.finditer(r'\b' + re.escape(callee) + r'\s*\(', text)):
+            # the call is gone (code restructured): R15 has nothing to annotate; the body is verified as it stands
+            self.bump('R15.closure_contract_skipped_no_call')
+            return text
         if len(hits) != 1:
             raise ExtractError('closure argument of %s: expected 1 call, found %d in %s' % (callee, len(hits), where))
         m = hits[0]
